@@ -5,15 +5,102 @@ FUNCTIONS = [
     'parser_py/parse.py: Traverse, RemoveComments, ParsingException (real code under CrossHair)',
 ]
 ASSUMPTIONS = [
-    'one clause of seven: syntactically unbalanced input.  For every string of length <=3 (quick) / <=4 (thorough) over all code points, RemoveComments raises ParsingException("Parenthesis matches nothing") exactly when an independent scanner-state specification written in the harness finds a closing bracket that matches nothing in code state, ParsingException("End of line in string") exactly for a newline inside a "..." literal, and never any other exception',
-    'NOT decided here (statements about program shape with no data for a solver to range over): range restriction, aggregation without distinct, inconsistent distinct, recursion without a base case, functor applied to a non-argument, annotation of a missing predicate',
+    'clause "syntactically unbalanced input":  For every string of length <=3 (quick) / <=4 (thorough) over all code points, RemoveComments raises ParsingException("Parenthesis matches nothing") exactly when an independent scanner-state specification written in the harness finds a closing bracket that matches nothing in code state, ParsingException("End of line in string") exactly for a newline inside a "..." literal, and never any other exception',
+    'clauses "aggregation without distinct" and "inconsistent distinct": enumerated configurations only (which of: aggregated named argument, second aggregated argument, value aggregation, distinct; distinct on each of two rules)',
+    'NOT decided here (statements about program shape with no data for a solver to range over, and a whole compilation costs >100 s per CrossHair path): range restriction, recursion without a base case, functor applied to a non-argument, annotation of a missing predicate',
 ]
+
+
+SHAPE = r'''
+from parser_py import parse
+from compiler import universe, rule_translate, functors
+
+
+def k_agg_needs_distinct(named_agg: bool, distinct: bool, two: bool, value_agg: bool) -> bool:
+  """
+  post: _
+  """
+  fields = ['x']
+  if named_agg:
+    fields.append('a? += y')
+    if two:
+      fields.append('b? Max= y')
+  else:
+    fields.append('a: y')
+  head = 'P(%s)' % ', '.join(fields)
+  if value_agg:
+    head += ' Min= y'
+  if distinct:
+    head += ' distinct'
+  text = head + ' :- E(x, y)'
+  try:
+    parse.ParseRule(parse.HeritageAwareString(text))
+    rejected = False
+  except parse.ParsingException:
+    rejected = True
+  # an aggregated argument needs `distinct`, unless the rule aggregates its value (which implies it)
+  return rejected == (named_agg and not distinct and not value_agg)
+
+
+def distinct_consistency(d1, d2):
+  text = ('@Engine("sqlite");\nQ(x) %s:- E(x, y);\nQ(y) %s:- F(x, y);\n' %
+          ('distinct ' if d1 else '', 'distinct ' if d2 else ''))
+  parse.TOO_MUCH = 'too much'
+  try:
+    rules = parse.ParseFile(text)['rule']
+    universe.LogicaProgram(rules)
+    rejected = False
+  except (parse.ParsingException, rule_translate.RuleCompileException, functors.FunctorError):
+    rejected = True
+  return rejected == (d1 != d2)
+
+
+def k_distinct_consistency_first_distinct(d2: bool) -> bool:
+  """
+  post: _
+  """
+  return distinct_consistency(True, d2)
+
+
+def k_distinct_consistency_first_plain(d2: bool) -> bool:
+  """
+  post: _
+  """
+  return distinct_consistency(False, d2)
+'''
+SHAPE_NAMES = ['k_agg_needs_distinct', 'k_distinct_consistency_first_distinct', 'k_distinct_consistency_first_plain']
+
+
+def replay_shape(name, args):
+  import os, subprocess, sys, tempfile, shutil
+  from .. import kern
+  d = tempfile.mkdtemp(prefix='logica_verif_c19r_')
+  try:
+    p = os.path.join(d, 'replay.py')
+    with open(p, 'w') as f:
+      f.write(kern.PRELUDE % os.environ.get('VERIF_REPO', '/repo') + SHAPE +
+              '\nimport sys\nsys.exit(0 if %s(%s) else 7)\n' % (name, args))
+    r = subprocess.run([sys.executable, p], stdout=subprocess.PIPE, stderr=subprocess.STDOUT, text=True)
+    return (r.returncode != 0, 'diagnostic for aggregation/distinct coherence differs from the rule (exit %d)' % r.returncode,
+            {'call': '%s(%s)' % (name, args), 'output': r.stdout[-800:]})
+  finally:
+    shutil.rmtree(d, ignore_errors=True)
+
+
+def shape_part(out):
+  from .. import kernels
+  kernels.run_kernels(out, 'aggregation / distinct coherence', SHAPE, SHAPE_NAMES, 1500, replay_shape,
+                      extra_args=['--per_path_timeout', '600'])
 
 
 def run():
   return c15.run_lemmas('C19', 'c19', FUNCTIONS, ASSUMPTIONS,
                         'CrossHair executes the real RemoveComments on every string within the bound and compares the '
-                        'raised diagnostic with an independent lexical specification; claimed only on "Confirmed over all paths".')
+                        'raised diagnostic with an independent lexical specification; claimed only on "Confirmed over all paths".  '
+                        'Two further clauses are decided by solver-driven enumeration of their (tiny) configuration spaces on the real '
+                        'ParseRule / ParseFile + LogicaProgram: an aggregated argument without `distinct` (16 configurations) and '
+                        'inconsistent `distinct` among two rules of a predicate (4 configurations, ~130 s per path under CrossHair).',
+                        extra_fn=shape_part)
 
 
 def replay(path):
